@@ -26,6 +26,16 @@
 //! than the write timeout followed by the reader resuming, stall for ever,
 //! write error) after every octet position of the response stream.
 //!
+//! Part (d) also: `limit` connections are open when another one arrives,
+//! accept_connections_at_max on/off, then the open ones close or
+//! StreamServer::reconfigure raises the limit; somebody must be served.
+//! Part (g): two pipelined queries each answered with n responses inside a
+//! BeginTransaction/EndTransaction bracket, n = 1..24 / 1..64.
+//! Part (a) also covers every deciding branch of the cookie middleware
+//! (client/valid/expired/too new/wrongly hashed/non-standard/malformed
+//! cookie x deny list x QDCOUNT=0 prefetch) and a limit-aware service
+//! (set_push_limit(hint - num_reserved_bytes()), TC set by the service).
+//!
 //! Tiers: (a) quick = boundary offsets {-18,-17,-12,-11,-10,-1,0,+1} around
 //! {512,513,1232,4096,65535}, thorough = every offset -24..=+2 and six more
 //! advertised sizes; (b) quick <= 3 deviations, thorough <= 4.
@@ -40,7 +50,7 @@ use domain::net::server::message::{
 use domain::net::server::middleware::cookies::CookiesMiddlewareSvc;
 use domain::net::server::middleware::edns::EdnsMiddlewareSvc;
 use domain::net::server::middleware::mandatory::MandatoryMiddlewareSvc;
-use domain::net::server::service::{CallResult, Service, ServiceError, ServiceResult};
+use domain::net::server::service::{CallResult, Service, ServiceError, ServiceFeedback, ServiceResult};
 use domain::net::server::sock::{AsyncAccept, AsyncDgramSock};
 use domain::net::server::stream::{self, StreamServer};
 use domain::base::iana::OptRcode;
@@ -147,6 +157,36 @@ fn opt_rr(size: u16, version: u8, options: &[u8]) -> Vec<u8> {
     v
 }
 
+const A_CLIENT: &str = "192.0.2.1:5300";
+
+/// The COOKIE option (code 10) of a request from A_CLIENT. The server
+/// cookie is made the way the server makes it (RFC 9018) - this only crafts
+/// the input, it is not part of the oracle.
+fn cookie_option(kind: EdnsReq) -> Vec<u8> {
+    use domain::base::opt::cookie::{ClientCookie, StandardServerCookie};
+    use domain::base::Serial;
+    let client = [1u8, 2, 3, 4, 5, 6, 7, 8];
+    let ip: std::net::IpAddr = A_CLIENT.parse::<SocketAddr>().unwrap().ip();
+    let now = Serial::now().into_int();
+    let ts = match kind {
+        EdnsReq::CookieExpired => now.wrapping_sub(7200),
+        EdnsReq::CookieFuture => now.wrapping_add(3600),
+        _ => now,
+    };
+    let sc = StandardServerCookie::calculate(ClientCookie::from_octets(client), Serial::from(ts), ip, &COOKIE_SECRET);
+    let sc: domain::base::opt::cookie::ServerCookie = sc.into();
+    let mut server: Vec<u8> = AsRef::<[u8]>::as_ref(&sc).to_vec();
+    match kind {
+        EdnsReq::CookieBadHash => server[15] ^= 0x55,
+        EdnsReq::CookieShortServer => server.truncate(8),
+        _ => {}
+    }
+    let mut v = vec![0, 10, 0, (8 + server.len()) as u8];
+    v.extend_from_slice(&client);
+    v.extend_from_slice(&server);
+    v
+}
+
 /// A plain `ns.example. 60 IN A 192.0.2.53` record.
 fn a_rr() -> Vec<u8> {
     let mut v = name_wire(&[b"ns", b"example"]);
@@ -201,14 +241,44 @@ type Stack<S> = MandatoryMiddlewareSvc<
     (),
 >;
 
+const COOKIE_SECRET: [u8; 16] = [7u8; 16];
+
+#[derive(Clone, Copy, Debug, Default)]
+struct StackMode {
+    /// `MandatoryMiddlewareSvc::relaxed` instead of `new`
+    relaxed: bool,
+    /// `CookiesMiddlewareSvc::enable(false)`
+    cookies_disabled: bool,
+    /// this client address is on the cookie middleware's deny list
+    deny: Option<std::net::IpAddr>,
+}
+
+fn mk_stack_mode<S>(svc: S, mode: StackMode) -> Stack<S>
+where
+    S: Service<Vec<u8>, ()>,
+    S::Future: Unpin,
+{
+    let mut cookies = CookiesMiddlewareSvc::new(svc, COOKIE_SECRET);
+    if let Some(ip) = mode.deny {
+        cookies = cookies.with_denied_ips(vec![ip]);
+    }
+    if mode.cookies_disabled {
+        cookies = cookies.enable(false);
+    }
+    let edns = EdnsMiddlewareSvc::new(cookies);
+    if mode.relaxed {
+        MandatoryMiddlewareSvc::relaxed(edns)
+    } else {
+        MandatoryMiddlewareSvc::new(edns)
+    }
+}
+
 fn mk_stack<S>(svc: S) -> Stack<S>
 where
     S: Service<Vec<u8>, ()>,
     S::Future: Unpin,
 {
-    MandatoryMiddlewareSvc::new(EdnsMiddlewareSvc::new(CookiesMiddlewareSvc::new(
-        svc, [7u8; 16],
-    )))
+    mk_stack_mode(svc, StackMode::default())
 }
 
 // ===========================================================================
@@ -223,6 +293,16 @@ enum EdnsReq {
     TwoOpts,
     CookieClient,
     CookieMalformed,
+    /// client cookie + server cookie the server itself would hand out now
+    CookieValid,
+    /// ... with a timestamp two hours in the past (expired)
+    CookieExpired,
+    /// ... with a timestamp one hour in the future (too new)
+    CookieFuture,
+    /// ... with a wrong hash
+    CookieBadHash,
+    /// client cookie + an 8-octet (non-standard) server cookie
+    CookieShortServer,
     /// no OPT, but a plain A record in the additional section
     OtherA,
     /// no OPT, but a TSIG-looking record in the additional section
@@ -242,6 +322,11 @@ impl EdnsReq {
             EdnsReq::TwoOpts => "two-opts".into(),
             EdnsReq::CookieClient => "cookie-client".into(),
             EdnsReq::CookieMalformed => "cookie-malformed".into(),
+            EdnsReq::CookieValid => "cookie-valid-server".into(),
+            EdnsReq::CookieExpired => "cookie-expired-server".into(),
+            EdnsReq::CookieFuture => "cookie-future-server".into(),
+            EdnsReq::CookieBadHash => "cookie-bad-hash".into(),
+            EdnsReq::CookieShortServer => "cookie-8-octet-server".into(),
             EdnsReq::OtherA => "no-opt+additional-A".into(),
             EdnsReq::OtherTsig => "no-opt+additional-TSIG".into(),
             EdnsReq::OptThenA => "opt-then-A".into(),
@@ -276,6 +361,13 @@ struct ACase {
     /// 1: the service's last builder operation is a push that fails (a record
     /// that cannot fit in 65535 octets) and is rolled back
     tail: u8,
+    /// the client's address is on the cookie middleware's deny list
+    deny: bool,
+    /// QDCOUNT=0 (RFC 7873 5.4 server cookie prefetch when a COOKIE is there)
+    prefetch: bool,
+    /// the service honours the size hint: set_push_limit(hint - reserved),
+    /// pushes until a push fails, then sets TC itself
+    aware: bool,
 }
 
 impl ACase {
@@ -292,6 +384,11 @@ impl ACase {
             EdnsReq::TwoOpts => ("two-opts", 0),
             EdnsReq::CookieClient => ("cookie-client", 0),
             EdnsReq::CookieMalformed => ("cookie-malformed", 0),
+            EdnsReq::CookieValid => ("cookie-valid", 0),
+            EdnsReq::CookieExpired => ("cookie-expired", 0),
+            EdnsReq::CookieFuture => ("cookie-future", 0),
+            EdnsReq::CookieBadHash => ("cookie-bad-hash", 0),
+            EdnsReq::CookieShortServer => ("cookie-short-server", 0),
             EdnsReq::OtherA => ("other-a", 0),
             EdnsReq::OtherTsig => ("other-tsig", 0),
             EdnsReq::OptThenA => ("opt-then-a", 0),
@@ -301,6 +398,7 @@ impl ACase {
             "part": "a", "transport": t, "limit": limit, "edns": ek, "edns_size": ev,
             "size": match self.size { SizeSpec::Min => json!("min"), SizeSpec::Abs(n) => json!(n), SizeSpec::MkError => json!("mk-error") },
             "resp_opt": self.resp_opt, "qlong": self.qlong, "layout": self.layout, "tail": self.tail,
+            "deny": self.deny, "prefetch": self.prefetch, "aware": self.aware,
         })
     }
     fn from_json(v: &Value) -> Option<ACase> {
@@ -315,6 +413,11 @@ impl ACase {
             "version1" => EdnsReq::Version1,
             "two-opts" => EdnsReq::TwoOpts,
             "cookie-client" => EdnsReq::CookieClient,
+            "cookie-valid" => EdnsReq::CookieValid,
+            "cookie-expired" => EdnsReq::CookieExpired,
+            "cookie-future" => EdnsReq::CookieFuture,
+            "cookie-bad-hash" => EdnsReq::CookieBadHash,
+            "cookie-short-server" => EdnsReq::CookieShortServer,
             "other-a" => EdnsReq::OtherA,
             "other-tsig" => EdnsReq::OtherTsig,
             "opt-then-a" => EdnsReq::OptThenA,
@@ -334,6 +437,9 @@ impl ACase {
             qlong: v["qlong"].as_bool()?,
             layout: v["layout"].as_u64()? as u8,
             tail: v["tail"].as_u64().unwrap_or(0) as u8,
+            deny: v["deny"].as_bool().unwrap_or(false),
+            prefetch: v["prefetch"].as_bool().unwrap_or(false),
+            aware: v["aware"].as_bool().unwrap_or(false),
         })
     }
     fn request(&self) -> Vec<u8> {
@@ -356,6 +462,9 @@ impl ACase {
                 ar.push(opt_rr(1232, 0, &[0, 10, 0, 8, 1, 2, 3, 4, 5, 6, 7, 8]))
             }
             EdnsReq::CookieMalformed => ar.push(opt_rr(1232, 0, &[0, 10, 0, 5, 1, 2, 3, 4, 5])),
+            EdnsReq::CookieValid | EdnsReq::CookieExpired | EdnsReq::CookieFuture | EdnsReq::CookieBadHash | EdnsReq::CookieShortServer => {
+                ar.push(opt_rr(1232, 0, &cookie_option(self.edns)))
+            }
             EdnsReq::OtherA => ar.push(a_rr()),
             EdnsReq::OtherTsig => ar.push(tsig_rr()),
             EdnsReq::OptThenA => {
@@ -367,8 +476,10 @@ impl ACase {
                 ar.push(opt_rr(1232, 0, &[]));
             }
         }
-        let mut m = hdr(0xBEEF, F_RD, [1, 0, 0, ar.len() as u16]);
-        m.extend_from_slice(&q);
+        let mut m = hdr(0xBEEF, F_RD, [if self.prefetch { 0 } else { 1 }, 0, 0, ar.len() as u16]);
+        if !self.prefetch {
+            m.extend_from_slice(&q);
+        }
         for r in ar {
             m.extend_from_slice(&r);
         }
@@ -382,6 +493,9 @@ struct ASvcSpec {
     resp_opt: u8,
     layout: u8,
     tail: u8,
+    aware: bool,
+    /// the limit-aware service stopped pushing because a push failed
+    svc_dropped: Arc<AtomicBool>,
     out: Arc<Mutex<Option<Vec<u8>>>>,
     unconstructible: Arc<AtomicBool>,
 }
@@ -461,29 +575,73 @@ fn a_handler(req: Request<Vec<u8>, ()>, spec: ASvcSpec) -> ServiceResult<Vec<u8>
     };
     let rt = Rtype::from_int(0xFF00);
     let blob = [0xA5u8; 512];
+    // a limit-aware service: what the transport allows (512 for a client
+    // without EDNS) minus what the middleware asked to keep free
+    let mut full = false;
+    if spec.aware {
+        let max: usize = match req.transport_ctx() {
+            TransportSpecificContext::Udp(u) => {
+                if req.message().opt().is_some() {
+                    u.max_response_size_hint().unwrap_or(512) as usize
+                } else {
+                    512
+                }
+            }
+            TransportSpecificContext::NonUdp(_) => 65535,
+        };
+        let limit = max.saturating_sub(req.num_reserved_bytes() as usize);
+        ans.set_push_limit(limit);
+        if ans.push_limit() != Some(limit) {
+            return Err(ServiceError::InternalError);
+        }
+    }
+    // a push that fails ends the limit-aware service's response (it sets TC
+    // below); for the plain service a failed push is an error
+    macro_rules! put {
+        ($b:expr, $len:expr) => {
+            if !full {
+                let d = UnknownRecordData::from_octets(rt, &blob[..$len]).unwrap();
+                if let Err(e) = $b.push((Name::root_ref(), Class::IN, 60u32, d)) {
+                    if spec.aware {
+                        full = true;
+                    } else {
+                        return Err(e.into());
+                    }
+                }
+            }
+        };
+    }
     let mut i = 0;
     while i < n_an {
-        let d = UnknownRecordData::from_octets(rt, &blob[..plan[i]]).unwrap();
-        ans.push((Name::root_ref(), Class::IN, 60u32, d))?;
+        put!(ans, plan[i]);
         i += 1;
     }
     let mut auth = ans.authority();
     while i < n_an + n_ns {
-        let d = UnknownRecordData::from_octets(rt, &blob[..plan[i]]).unwrap();
-        auth.push((Name::root_ref(), Class::IN, 60u32, d))?;
+        put!(auth, plan[i]);
         i += 1;
     }
     let mut add = auth.additional();
     while i < n {
-        let d = UnknownRecordData::from_octets(rt, &blob[..plan[i]]).unwrap();
-        add.push((Name::root_ref(), Class::IN, 60u32, d))?;
+        put!(add, plan[i]);
         i += 1;
     }
     if spec.resp_opt != 0 {
-        add.opt(|o| {
+        let r = add.opt(|o| {
             o.set_udp_payload_size(1232);
             o.padding(pad)
-        })?;
+        });
+        if let Err(e) = r {
+            if spec.aware {
+                full = true;
+            } else {
+                return Err(e.into());
+            }
+        }
+    }
+    if full {
+        add.header_mut().set_tc(true);
+        spec.svc_dropped.store(true, Ordering::SeqCst);
     }
     if spec.tail == 1 && !failed_push(&mut add) {
         spec.unconstructible.store(true, Ordering::SeqCst);
@@ -501,6 +659,10 @@ struct AOut {
     /// `as_stream_slice()` (two-octet length + message) of every response
     stream_slices: Vec<Vec<u8>>,
     not_ready: bool,
+    /// the limit-aware service dropped records itself (and set TC)
+    svc_dropped: bool,
+    /// `Stream::size_hint()` of the stack's stream before the first item
+    size_hint: Option<(usize, Option<usize>)>,
 }
 
 fn run_a(c: &ACase) -> Result<AOut, String> {
@@ -510,15 +672,19 @@ fn run_a(c: &ACase) -> Result<AOut, String> {
         resp_opt: c.resp_opt,
         layout: c.layout,
         tail: c.tail,
+        aware: c.aware,
+        svc_dropped: Arc::new(AtomicBool::new(false)),
         out: Arc::new(Mutex::new(None)),
         unconstructible: Arc::new(AtomicBool::new(false)),
     };
     let spec2 = spec.clone();
     let reqb = req.clone();
+    let deny = c.deny;
     let transport = c.transport;
     let r = guard(move || {
         let svc = service_fn::<Vec<u8>, Vec<u8>, _, (), _>(a_handler, spec2);
-        let stack = mk_stack(svc);
+        let client: SocketAddr = A_CLIENT.parse().unwrap();
+        let stack = mk_stack_mode(svc, StackMode { deny: if deny { Some(client.ip()) } else { None }, ..Default::default() });
         let msg = Message::from_octets(reqb).map_err(|e| format!("request rejected: {e}"))?;
         let tctx: TransportSpecificContext = match transport {
             Transport::Udp(l) => UdpTransportContext::new(l).into(),
@@ -530,7 +696,7 @@ fn run_a(c: &ACase) -> Result<AOut, String> {
             .into(),
         };
         let request = Request::new(
-            "192.0.2.1:5300".parse().unwrap(),
+            client,
             tokio::time::Instant::now(),
             msg,
             tctx,
@@ -539,9 +705,13 @@ fn run_a(c: &ACase) -> Result<AOut, String> {
         let mut items = Vec::new();
         let mut stream_slices: Vec<Vec<u8>> = Vec::new();
         let mut not_ready = false;
+        let mut size_hint = None;
         match stack.call(request).now_or_never() {
             None => not_ready = true,
             Some(mut stream) => loop {
+                if size_hint.is_none() {
+                    size_hint = Some(stream.size_hint());
+                }
                 match stream.next().now_or_never() {
                     None => {
                         not_ready = true;
@@ -563,18 +733,20 @@ fn run_a(c: &ACase) -> Result<AOut, String> {
                 }
             },
         }
-        Ok::<_, String>((items, stream_slices, not_ready))
+        Ok::<_, String>((items, stream_slices, not_ready, size_hint))
     });
     match r {
         Err(p) => Err(p),
         Ok(Err(e)) => Err(format!("HARNESS: {e}")),
-        Ok(Ok((items, stream_slices, not_ready))) => Ok(AOut {
+        Ok(Ok((items, stream_slices, not_ready, size_hint))) => Ok(AOut {
             req,
             svc_bytes: spec.out.lock().unwrap().clone(),
             unconstructible: spec.unconstructible.load(Ordering::SeqCst),
             items,
             stream_slices,
             not_ready,
+            svc_dropped: spec.svc_dropped.load(Ordering::SeqCst),
+            size_hint,
         }),
     }
 }
@@ -590,6 +762,12 @@ fn judge_a(c: &ACase, out: &AOut) -> (Vec<(String, String)>, String, bool) {
     if out.not_ready {
         v.push((format!("C16|a|{t}|stack|future-or-stream-not-ready"), "middleware stack future/stream not immediately ready over a ready service".into()));
         return (v, "not-ready".into(), false);
+    }
+    if let Some((lo, hi)) = out.size_hint {
+        let n = out.items.len();
+        if lo > n || hi.map(|h| h < n).unwrap_or(false) {
+            v.push((format!("C16|a|{t}|stack|size-hint-excludes-the-number-of-items"), format!("size_hint ({lo}, {hi:?}) but the stream yielded {n} items")));
+        }
     }
     if out.items.len() != 1 {
         v.push((format!("C16|a|{t}|stack|item-count"), format!("stack yielded {} items for a single-response service", out.items.len())));
@@ -630,7 +808,7 @@ fn judge_a(c: &ACase, out: &AOut) -> (Vec<(String, String)>, String, bool) {
         if rcode == 1 && m.questions.is_empty() {
             obs_formerr_noq = true;
         } else {
-            v.push((format!("C16|a|{t}|question-mismatch|tc={tc}"), format!("response question section {:?} != request's", m.questions.len())));
+            v.push((format!("C16|a|{t}|question-mismatch|rcode={rcode}|tc={tc}"), format!("the response carries {} questions, the request's question section is not echoed (rcode {rcode}, service called: {})", m.questions.len(), out.svc_bytes.is_some())));
         }
     }
     // content accounting
@@ -681,10 +859,16 @@ fn judge_a(c: &ACase, out: &AOut) -> (Vec<(String, String)>, String, bool) {
                     format!("UDP response of {} octets exceeds the allowed {} (advertised {:?}, configured limit {:?})", fin.len(), bound, adv, limit),
                 ));
             }
-            if tc && !dropped && !over {
+            // a response the middleware makes itself may carry TC as a
+            // deliberate "retry over TCP" signal (cookie deny list)
+            let tc_expected = dropped || out.svc_dropped;
+            if c.aware && dropped {
+                v.push(("C16|a|udp|limit-aware-service-response-truncated-again".into(), format!("the service kept to hint - reserved octets ({} octets) but the middleware still dropped records ({} of {})", out.svc_bytes.as_ref().map(|b| b.len()).unwrap_or(0), fin_recs.len(), svc_recs.len())));
+            }
+            if tc && !tc_expected && !over && out.svc_bytes.is_some() {
                 v.push(("C16|a|udp|tc-set-without-dropped-content".into(), "TC set although every record of the service's response is present".into()));
             }
-            if !tc && dropped {
+            if !tc && tc_expected {
                 v.push(("C16|a|udp|content-dropped-without-tc".into(), format!("{} of {} records present but TC clear", fin_recs.len(), svc_recs.len())));
             }
             let req_edns0 = req_opts.len() == 1 && (req_opts[0].ttl >> 16) & 0xFF == 0;
@@ -707,6 +891,9 @@ fn judge_a(c: &ACase, out: &AOut) -> (Vec<(String, String)>, String, bool) {
             }
         }
         Transport::Tcp(_) => {
+            if out.svc_dropped && !tc {
+                v.push(("C16|a|tcp|service-set-tc-lost".into(), "the service set TC after dropping records, the final response has TC clear".into()));
+            }
             if let Some(ss) = out.stream_slices.first() {
                 let announced = if ss.len() >= 2 { u16::from_be_bytes([ss[0], ss[1]]) as usize } else { usize::MAX };
                 if ss.len() != fin.len() + 2 || announced != fin.len() || ss[2..] != fin[..] {
@@ -716,7 +903,7 @@ fn judge_a(c: &ACase, out: &AOut) -> (Vec<(String, String)>, String, bool) {
                     ));
                 }
             }
-            if tc || dropped {
+            if (tc && !out.svc_dropped) || dropped {
                 v.push((
                     "C16|a|tcp|truncated".into(),
                     format!("TCP response of service size {:?} truncated (tc={tc}, {} of {} records)", out.svc_bytes.as_ref().map(|b| b.len()), fin_recs.len(), svc_recs.len()),
@@ -725,8 +912,10 @@ fn judge_a(c: &ACase, out: &AOut) -> (Vec<(String, String)>, String, bool) {
         }
     }
     let label = format!(
-        "{t}:{}{}{}{}{}",
-        if out.svc_bytes.is_some() { "svc" } else { "short-circuit" },
+        "{t}:{}{}{}{}{}{}{}",
+        if out.svc_bytes.is_some() { "svc".to_string() } else { format!("short-circuit:rcode{rcode}") },
+        if out.svc_dropped { ":svc-set-tc" } else { "" },
+        if !req_opts.is_empty() && fin_opts.is_empty() { ":edns-request-answered-without-opt" } else { "" },
         if tc { ":tc" } else { "" },
         if over { ":over" } else { "" },
         if obs_formerr_noq { ":formerr-noq" } else { "" },
@@ -769,6 +958,41 @@ fn a_cases(quick: bool) -> Vec<ACase> {
         transports.push(Transport::Udp(l));
     }
     let mut v = Vec::new();
+    // cookie sub-product: every deciding branch of the cookie middleware
+    // (no cookie / client only / valid, expired, too new, wrongly hashed,
+    // non-standard server cookie / malformed) x deny list x QDCOUNT=0 prefetch
+    let cookie_kinds = [
+        EdnsReq::Absent,
+        EdnsReq::Size(1232),
+        EdnsReq::CookieClient,
+        EdnsReq::CookieMalformed,
+        EdnsReq::CookieValid,
+        EdnsReq::CookieExpired,
+        EdnsReq::CookieFuture,
+        EdnsReq::CookieBadHash,
+        EdnsReq::CookieShortServer,
+    ];
+    let cookie_sizes = [SizeSpec::Min, SizeSpec::Abs(300), SizeSpec::Abs(501), SizeSpec::Abs(502), SizeSpec::Abs(512), SizeSpec::Abs(513), SizeSpec::Abs(1221), SizeSpec::Abs(1222), SizeSpec::Abs(1232), SizeSpec::Abs(1233)];
+    for &transport in &transports {
+        for &e in &cookie_kinds {
+            for deny in [false, true] {
+                for prefetch in [false, true] {
+                    if !deny && !prefetch && !matches!(e, EdnsReq::CookieValid | EdnsReq::CookieExpired | EdnsReq::CookieFuture | EdnsReq::CookieBadHash | EdnsReq::CookieShortServer) {
+                        continue; // already in the main product
+                    }
+                    for &size in &cookie_sizes {
+                        for resp_opt in 0..2u8 {
+                            for qlong in [false, true] {
+                                for aware in [false, true] {
+                                    v.push(ACase { transport, edns: e, size, resp_opt, qlong, layout: 0, tail: 0, deny, prefetch, aware });
+                                }
+                            }
+                        }
+                    }
+                }
+            }
+        }
+    }
     for &transport in &transports {
         for &e in &edns {
             for &size in &size_menu {
@@ -776,7 +1000,11 @@ fn a_cases(quick: bool) -> Vec<ACase> {
                     for qlong in [false, true] {
                         for layout in 0..2u8 {
                             for tail in 0..2u8 {
-                                v.push(ACase { transport, edns: e, size, resp_opt, qlong, layout, tail });
+                                v.push(ACase { transport, edns: e, size, resp_opt, qlong, layout, tail, deny: false, prefetch: false, aware: false });
+                            }
+                            // the limit-aware service (push limit = hint - reserved octets)
+                            if resp_opt < 2 && size != SizeSpec::MkError {
+                                v.push(ACase { transport, edns: e, size, resp_opt, qlong, layout, tail: 0, deny: false, prefetch: false, aware: true });
                             }
                         }
                     }
@@ -810,11 +1038,14 @@ struct Env {
     ch: Mutex<Chooser>,
     probe: AtomicBool,
     log: Mutex<Log>,
+    /// part (g): requests 0x2000.. are answered with a stream of this many
+    /// responses inside a transaction (0 = off)
+    txn_items: std::sync::atomic::AtomicUsize,
 }
 
 impl Env {
     fn new(ch: Chooser, probe: bool) -> Arc<Env> {
-        Arc::new(Env { ch: Mutex::new(ch), probe: AtomicBool::new(probe), log: Mutex::new(Log::default()) })
+        Arc::new(Env { ch: Mutex::new(ch), probe: AtomicBool::new(probe), log: Mutex::new(Log::default()), txn_items: std::sync::atomic::AtomicUsize::new(0) })
     }
     fn choose(&self, n: usize, label: &'static str) -> usize {
         if self.probe.load(Ordering::SeqCst) {
@@ -842,8 +1073,15 @@ const SK_STREAM_ERR: usize = 6;
 const SK_OK_ERRRESP: usize = 7;
 /// a response whose last builder operation is a rolled-back failed push
 const SK_ROLLBACK: usize = 8;
-const SK_N: usize = 9;
-const SK_NAMES: [&str; SK_N] = ["single", "stream3", "stream3-spaced", "delayed-100ms", "delayed-31s", "error", "stream2-then-error", "ok(mk_error_response)", "rolled-back-push-last"];
+/// feedback-only BeginTransaction, three responses, EndTransaction on the last
+const SK_TXN3: usize = 9;
+/// one response carrying ServiceFeedback::Reconfigure { idle_timeout: 60 s }
+const SK_RECONF: usize = 10;
+const SK_N: usize = 11;
+const SK_NAMES: [&str; SK_N] = [
+    "single", "stream3", "stream3-spaced", "delayed-100ms", "delayed-31s", "error", "stream2-then-error", "ok(mk_error_response)", "rolled-back-push-last",
+    "transaction(begin,3,end)", "reconfigure-feedback(idle=60s)",
+];
 
 type BoxStream = Pin<Box<dyn Stream<Item = ServiceResult<Vec<u8>>> + Send>>;
 
@@ -854,6 +1092,10 @@ struct BehSvc {
 
 fn mk_item(req: &Request<Vec<u8>, ()>, idx: u8) -> ServiceResult<Vec<u8>> {
     let id = req.message().header().id();
+    // like a real service: an unparseable question is a format error
+    for q in req.message().question() {
+        q?;
+    }
     let b = mk_builder_for_target::<Vec<u8>>();
     let mut ans = b.start_answer(req.message(), Rcode::NOERROR)?;
     let tag = [b'T', (id >> 8) as u8, id as u8, idx];
@@ -871,7 +1113,14 @@ impl Service<Vec<u8>, ()> for BehSvc {
         let id = request.message().header().id();
         let addr = request.client_addr();
         // the concurrent well-behaved connection always gets a plain answer
-        let kind = if id == 0x7C7C { SK_SINGLE } else { self.env.choose(SK_N, "svc-kind") };
+        let txn_items = self.env.txn_items.load(Ordering::SeqCst);
+        let kind = if id == 0x7C7C {
+            SK_SINGLE
+        } else if txn_items > 0 && (0x2000..0x2100).contains(&id) {
+            SK_TXN3
+        } else {
+            self.env.choose(SK_N, "svc-kind")
+        };
         self.env.log.lock().unwrap().svc_calls.push((id, addr, kind));
         let mut items: VecDeque<ServiceResult<Vec<u8>>> = VecDeque::new();
         let mut pre = Duration::ZERO;
@@ -892,8 +1141,27 @@ impl Service<Vec<u8>, ()> for BehSvc {
                 pre = Duration::from_secs(31);
                 self.env.flag("svc-slower-than-idle-timeout");
             }
-            SK_ERROR => items.push_back(Err(ServiceError::InternalError)),
-            SK_OK_ERRRESP => items.push_back(Ok(CallResult::new(mk_error_response::<Vec<u8>, Vec<u8>>(request.message(), OptRcode::REFUSED)))),
+            SK_ERROR => {
+                // the way services usually fail: `?` on a push that does not fit
+                let failing = |req: &Request<Vec<u8>, ()>| -> ServiceResult<Vec<u8>> {
+                    let mut ans = mk_builder_for_target::<Vec<u8>>().start_answer(req.message(), Rcode::NOERROR)?;
+                    let big = vec![0u8; 65535];
+                    ans.push((Name::root_ref(), Class::IN, 60u32, UnknownRecordData::from_octets(Rtype::from_int(0xFF00), &big[..]).unwrap()))?;
+                    Ok(CallResult::new(ans.additional()))
+                };
+                let r = failing(&request);
+                items.push_back(if r.is_ok() { Err(ServiceError::InternalError) } else { r });
+            }
+            SK_TXN3 => {
+                let n = if txn_items > 0 && (0x2000..0x2100).contains(&id) { txn_items } else { 3 };
+                items.push_back(Ok(CallResult::from(ServiceFeedback::BeginTransaction)));
+                for i in 0..n {
+                    let it = mk_item(&request, i as u8);
+                    items.push_back(if i + 1 == n { it.map(|cr| cr.with_feedback(ServiceFeedback::EndTransaction)) } else { it });
+                }
+            }
+            SK_RECONF => items.push_back(mk_item(&request, 0).map(|cr| cr.with_feedback(ServiceFeedback::Reconfigure { idle_timeout: Some(Duration::from_secs(60)) }))),
+            SK_OK_ERRRESP => items.push_back(Ok(CallResult::from(mk_error_response::<Vec<u8>, Vec<u8>>(request.message(), OptRcode::REFUSED)))),
             SK_ROLLBACK => items.push_back(mk_item(&request, 0).map(|cr| {
                 let (resp, _) = cr.into_inner();
                 let mut add = resp.expect("mk_item makes a response");
@@ -949,10 +1217,15 @@ where
         let r = self.inner.poll_next_unpin(cx);
         if let Poll::Ready(Some(item)) = &r {
             let p = match item {
-                Ok(cr) => match cr.response() {
-                    Some(resp) => Produced::Resp(resp.as_slice().to_vec()),
-                    None => Produced::Feedback,
-                },
+                Ok(cr) => {
+                    if cr.feedback().is_some() {
+                        self.env.flag("service-feedback-seen");
+                    }
+                    match cr.response() {
+                        Some(resp) => Produced::Resp(resp.as_slice().to_vec()),
+                        None => Produced::Feedback,
+                    }
+                }
                 Err(_) => Produced::Err,
             };
             self.env.log.lock().unwrap().produced.push((self.id, self.addr, p));
@@ -981,8 +1254,21 @@ where
     }
 }
 
+fn mk_server_service_mode(env: &Arc<Env>, mode: StackMode) -> Recorder<Stack<BehSvc>> {
+    Recorder { inner: mk_stack_mode(BehSvc { env: env.clone() }, mode), env: env.clone() }
+}
+
 fn mk_server_service(env: &Arc<Env>) -> Recorder<Stack<BehSvc>> {
-    Recorder { inner: mk_stack(BehSvc { env: env.clone() }), env: env.clone() }
+    mk_server_service_mode(env, StackMode::default())
+}
+
+/// Environment choice: how the application assembled its middleware stack.
+fn choose_stack_mode(env: &Env) -> StackMode {
+    match env.choose(3, "stack-mode") {
+        1 => StackMode { relaxed: true, ..Default::default() },
+        2 => StackMode { cookies_disabled: true, ..Default::default() },
+        _ => StackMode::default(),
+    }
 }
 
 // ---- request kinds ---------------------------------------------------------
@@ -1342,7 +1628,8 @@ fn run_dgram(ch: &mut Chooser, col: &Collector) {
         rt.block_on(async move {
             let env = env2;
             let sock = MockSock::new(&env);
-            let srv = Arc::new(DgramServer::with_config(sock.clone(), VecBufSource, mk_server_service(&env), dgram::Config::new()));
+            let mode = choose_stack_mode(&env);
+            let srv = Arc::new(DgramServer::new(sock.clone(), VecBufSource, mk_server_service_mode(&env, mode)));
             let s2 = srv.clone();
             let jh = tokio::spawn(async move { s2.run().await });
             let mut kinds = Vec::new();
@@ -1800,7 +2087,9 @@ struct StreamObs {
 
 async fn drive_stream(env: Arc<Env>, plan: &StreamPlan, script: Option<(usize, usize)>) -> StreamObs {
     let listener = MockListener::new(&env);
-    let srv = Arc::new(StreamServer::with_config(listener.clone(), VecBufSource, mk_server_service(&env), stream::Config::new()));
+    let mode = choose_stack_mode(&env);
+    // the service is handed over behind an Arc (Service is implemented for Deref<Target = impl Service>)
+    let srv = Arc::new(StreamServer::new(listener.clone(), VecBufSource, Arc::new(mk_server_service_mode(&env, mode))));
     let s2 = srv.clone();
     let jh = tokio::spawn(async move { s2.run().await });
     let a = MockStream::new(&env);
@@ -1993,7 +2282,17 @@ fn plan_three_valid() -> StreamPlan {
 /// `depth`: part (c); `cut`: part (f) = (octets accepted before the fault,
 /// index into CUT_MODES); neither: one execution of the exploration.
 fn run_stream(ch: &mut Chooser, col: &Collector, depth: Option<usize>, cut: Option<(usize, usize)>) {
+    run_stream_txn(ch, col, depth, cut, None)
+}
+
+/// `txn`: part (g) = two pipelined queries, each answered with a stream of
+/// that many responses inside a BeginTransaction/EndTransaction bracket.
+fn run_stream_txn(ch: &mut Chooser, col: &Collector, depth: Option<usize>, cut: Option<(usize, usize)>, txn: Option<usize>) {
+    let depth = if txn.is_some() { Some(2) } else { depth };
     let env = Env::new(std::mem::take(ch), depth.is_some() || cut.is_some());
+    if let Some(n) = txn {
+        env.txn_items.store(n, Ordering::SeqCst);
+    }
     let _ = take_task_panics();
     let plan = match (depth, cut) {
         (Some(n), _) => plan_depth(n),
@@ -2008,11 +2307,12 @@ fn run_stream(ch: &mut Chooser, col: &Collector, depth: Option<usize>, cut: Opti
     *ch = env.ch.lock().unwrap().clone();
     let panics = take_task_panics();
     let replay = match (depth, cut) {
+        (Some(_), _) if txn.is_some() => json!({"part": "transaction", "n": txn}),
         (Some(n), _) => json!({"part": "depth", "n": n}),
         (None, Some((at, m))) => json!({"part": "write-cut", "cut": at, "mode": m, "mode_name": CUT_MODES[m].1}),
         (None, None) => json!({"part": "stream", "choices": ch.choices(), "trace": ch.describe()}),
     };
-    let part = if depth.is_some() { "stream-depth" } else if cut.is_some() { "stream-write-cut" } else { "stream" };
+    let part = if txn.is_some() { "stream-transaction" } else if depth.is_some() { "stream-depth" } else if cut.is_some() { "stream-write-cut" } else { "stream" };
     let mut viol: Vec<(String, String)> = Vec::new();
     for p in &panics {
         viol.push((format!("C16|stream|panic|{}", panic_class(p)), format!("panic in the stream server: {p}")));
@@ -2031,6 +2331,9 @@ fn run_stream(ch: &mut Chooser, col: &Collector, depth: Option<usize>, cut: Opti
     let mut fixed: Option<&str> = depth.map(|n| if n > 10 { "pipelined-requests>max_queued_responses(10)" } else { "pipelined-requests<=max_queued_responses(10)" });
     if let Some((_, m)) = cut {
         fixed = Some(CUT_MODES[m].1);
+    }
+    if txn.is_some() {
+        fixed = Some("n-responses-inside-a-transaction");
     }
     if !obs.alive {
         viol.push(("C16|stream|server-task-exited".to_string(), "StreamServer::run returned before shutdown".into()));
@@ -2084,12 +2387,14 @@ fn run_stream(ch: &mut Chooser, col: &Collector, depth: Option<usize>, cut: Opti
         for f in &log.flags {
             *counts.entry(format!("stream.flag.{f}")).or_insert(0) += 1;
         }
+    } else if let Some(n) = txn {
+        *counts.entry(format!("transaction.items={n:02}x2.written={written_a:03}")).or_insert(0) += 1;
     } else {
         *counts.entry(format!("depth.n={:02}.written={written_a:02}", depth.unwrap())).or_insert(0) += 1;
     }
     st.merge_counts(&counts);
     if ch.deviations() >= 1 || depth.is_some() || cut.is_some() {
-        st.distinct(fnv(format!("{part}{:?}{:?}{:?}", ch.choices(), depth, cut).as_bytes()));
+        st.distinct(fnv(format!("{part}{:?}{:?}{:?}{:?}", ch.choices(), depth, cut, txn).as_bytes()));
     }
     st.sample(if depth.is_some() { 8 } else if cut.is_some() { 14 } else { 6 }, || json!({"part": part, "depth": depth, "write_cut": cut.map(|(at, m)| json!({"octets_before_fault": at, "mode": CUT_MODES[m].1})), "trace": ch.describe(), "client_octets": obs.a.delivered.len(), "server_octets": obs.a.out.len(), "messages_written": written_a, "produced": expected_a}));
     if col.verbose {
@@ -2218,6 +2523,199 @@ fn run_failed_setups(n: usize, max_conn: Option<usize>, col: &Collector) {
     col.report(viol, &replay);
 }
 
+#[derive(Clone, Copy, Debug)]
+struct HolderCase {
+    limit: usize,
+    /// Config::set_accept_connections_at_max
+    at_max: bool,
+    /// 0: the holders close; 1: StreamServer::reconfigure raises the limit by one
+    wake: usize,
+}
+
+struct HolderObs {
+    holders: Vec<ConnObs>,
+    x: ConnObs,
+    y: ConnObs,
+    alive: bool,
+    reconf_ok: bool,
+}
+
+fn quiet_conn(env: &Arc<Env>, listener: &MockListener, addr: SocketAddr, id: u16) -> (MockStream, Vec<u8>) {
+    let s = MockStream::quiet(env);
+    listener.connect(s.clone(), addr);
+    let pm = probe_message(id);
+    let mut pb = (pm.len() as u16).to_be_bytes().to_vec();
+    pb.extend_from_slice(&pm);
+    s.feed(&pb);
+    (s, pb)
+}
+
+fn conn_obs(s: &MockStream, delivered: Vec<u8>) -> ConnObs {
+    let st = s.0.st.lock().unwrap();
+    ConnObs { delivered, out: st.out.clone(), client_abort: None, write_fail: st.write_fail, writes: st.writes.clone(), server_closed: st.shutdown }
+}
+
+fn holder_addr(k: usize) -> SocketAddr {
+    SocketAddr::from(([203, 0, 113, k as u8 + 1], 3000 + k as u16))
+}
+
+fn stream_config(limit: usize, at_max: bool) -> stream::Config {
+    let mut cc = domain::net::server::ConnectionConfig::new();
+    cc.set_idle_timeout(Duration::from_secs(300));
+    cc.set_response_write_timeout(Duration::from_secs(10));
+    cc.set_max_queued_responses(32);
+    let mut cfg = stream::Config::new();
+    cfg.set_max_concurrent_connections(limit);
+    cfg.set_accept_connections_at_max(at_max);
+    cfg.set_connection_config(cc);
+    cfg
+}
+
+/// `limit` well-behaved connections are open (each got its answer) when
+/// connection X arrives. Then either the holders close or the limit is
+/// raised with reconfigure(); finally a fresh connection Y arrives.
+async fn drive_holders(env: Arc<Env>, hc: HolderCase) -> HolderObs {
+    let listener = MockListener::new(&env);
+    let cfg = stream_config(hc.limit, hc.at_max);
+    let same = cfg.clone();
+    assert!(same.max_concurrent_connections() == hc.limit && same.accept_connections_at_max() == hc.at_max);
+    assert!(same.connection_config().clone().eq_debug(cfg.connection_config()));
+    let srv = Arc::new(StreamServer::with_config(listener.clone(), VecBufSource, mk_server_service(&env), cfg));
+    let s2 = srv.clone();
+    let jh = tokio::spawn(async move { s2.run().await });
+    let mut holders = Vec::new();
+    for k in 0..hc.limit {
+        holders.push(quiet_conn(&env, &listener, holder_addr(k), 0x6000 + k as u16));
+        tokio::time::sleep(Duration::from_secs(1)).await;
+    }
+    let addr_x: SocketAddr = "192.0.2.30:4100".parse().unwrap();
+    let (x, xb) = quiet_conn(&env, &listener, addr_x, 0x6100);
+    tokio::time::sleep(Duration::from_secs(2)).await;
+    let mut reconf_ok = true;
+    if hc.wake == 0 {
+        for (h, _) in &holders {
+            h.close(false);
+        }
+    } else {
+        reconf_ok = srv.reconfigure(stream_config(hc.limit + 1, hc.at_max)).is_ok();
+    }
+    tokio::time::sleep(Duration::from_secs(2)).await;
+    let addr_y: SocketAddr = "192.0.2.31:4101".parse().unwrap();
+    let (y, yb) = quiet_conn(&env, &listener, addr_y, 0x6101);
+    tokio::time::sleep(Duration::from_secs(10)).await;
+    let alive = !jh.is_finished();
+    let _ = srv.shutdown();
+    tokio::time::sleep(Duration::from_secs(1)).await;
+    HolderObs {
+        holders: holders.iter().map(|(h, b)| conn_obs(h, b.clone())).collect(),
+        x: conn_obs(&x, xb),
+        y: conn_obs(&y, yb),
+        alive,
+        reconf_ok,
+    }
+}
+
+trait EqDebug {
+    fn eq_debug(&self, other: &Self) -> bool;
+}
+impl<T: std::fmt::Debug> EqDebug for T {
+    fn eq_debug(&self, other: &Self) -> bool {
+        format!("{self:?}") == format!("{other:?}")
+    }
+}
+
+fn run_holders(hc: &HolderCase, col: &Collector) {
+    let env = Env::new(Chooser::default(), true);
+    let _ = take_task_panics();
+    let env2 = env.clone();
+    let hc2 = *hc;
+    let rt = new_runtime();
+    let res = guard(|| rt.block_on(drive_holders(env2, hc2)));
+    drop(rt);
+    let panics = take_task_panics();
+    let replay = json!({"part": "holders", "limit": hc.limit, "accept_at_max": hc.at_max, "wake": hc.wake});
+    let pred = format!("accept_connections_at_max={}|{}", hc.at_max, if hc.wake == 0 { "after-the-open-connections-closed" } else { "after-reconfigure-raised-the-limit" });
+    let mut viol: Vec<(String, String)> = Vec::new();
+    for p in &panics {
+        viol.push((format!("C16|stream-at-limit|panic|{}", panic_class(p)), format!("panic in the stream server: {p}")));
+    }
+    let obs = match res {
+        Ok(o) => o,
+        Err(p) => {
+            if panics.is_empty() {
+                viol.push((format!("C16|stream-at-limit|panic|{}", panic_class(&p)), format!("panic: {p}")));
+            }
+            col.report(viol, &replay);
+            return;
+        }
+    };
+    if !obs.alive {
+        viol.push((format!("C16|stream-at-limit|server-task-exited|{pred}"), "StreamServer::run returned before shutdown".into()));
+    }
+    if !obs.reconf_ok {
+        viol.push(("C16|stream-at-limit|reconfigure-rejected".into(), "StreamServer::reconfigure returned an error while the server was running".into()));
+    }
+    let log = env.log.lock().unwrap();
+    // the connections within the limit are always served
+    for (k, h) in obs.holders.iter().enumerate() {
+        let before = viol.len();
+        let (w, _) = judge_conn("stream-at-limit", h, &log, holder_addr(k), Some("connection-within-the-limit"), &mut viol);
+        if w != 1 && viol.len() == before {
+            viol.push(("C16|stream-at-limit|connection-within-the-limit-unanswered".into(), format!("connection #{k} of {} got {w} responses", hc.limit)));
+        }
+    }
+    // X arrived while the server was full: with accept_connections_at_max it
+    // may be dropped; without, it has to be served once there is room
+    let mut vx: Vec<(String, String)> = Vec::new();
+    let (wx, _) = judge_conn("stream-at-limit", &obs.x, &log, "192.0.2.30:4100".parse().unwrap(), Some(&pred), &mut vx);
+    if wx >= 1 {
+        viol.extend(vx); // whether X had to be served at all is decided below
+    }
+    let mut vy: Vec<(String, String)> = Vec::new();
+    let (wy, _) = judge_conn("stream-at-limit", &obs.y, &log, "192.0.2.31:4101".parse().unwrap(), Some(&pred), &mut vy);
+    if wy >= 1 {
+        viol.extend(vy);
+    }
+    // What has to hold: once there is room again, somebody gets served.
+    // - the open connections closed: every slot is free, the fresh
+    //   connection Y must be answered (X may have been turned away while the
+    //   server was full - that is what the limit is for);
+    // - the limit was raised by one: exactly one slot is free, X (if the
+    //   server kept it waiting) or else Y must be answered.
+    let served = if hc.wake == 0 { wy == 1 } else { wx + wy >= 1 };
+    if !served {
+        viol.push((
+            format!("C16|stream-at-limit|nobody-served-once-there-is-room-again|{pred}"),
+            format!("limit {}: {} connections were open when connection X arrived (X got {wx} responses); 12 s after there was room again the fresh connection Y had {wy} responses", hc.limit, hc.limit),
+        ));
+    }
+    if wx > 1 || wy > 1 {
+        viol.push(("C16|stream-at-limit|response-duplicate-or-extra".into(), format!("{wx} responses on the connection that arrived while full")));
+    }
+    let st = &col.stats;
+    st.eval();
+    st.count(&format!("at-limit.limit={}.{pred}.x-answers={wx}.y-answers={wy}", hc.limit));
+    st.distinct(fnv(format!("{hc:?}").as_bytes()));
+    st.sample(6, || json!({"part": "holders", "case": replay.clone(), "x_answers": wx, "y_answers": wy}));
+    if col.verbose {
+        println!("holders {hc:?}: X got {wx} responses (server closed it: {}), Y got {wy}", obs.x.server_closed);
+    }
+    drop(log);
+    col.report(viol, &replay);
+}
+
+fn holder_cases() -> Vec<HolderCase> {
+    let mut v = Vec::new();
+    for limit in [1usize, 2, 3] {
+        for at_max in [true, false] {
+            for wake in [0usize, 1] {
+                v.push(HolderCase { limit, at_max, wake });
+            }
+        }
+    }
+    v
+}
+
 /// (n, configured max_concurrent_connections) pairs of part (d).
 fn failed_setup_cases(quick: bool) -> Vec<(usize, Option<usize>)> {
     let mut v = Vec::new();
@@ -2248,6 +2746,7 @@ struct ReconfCase {
 
 fn dgram_config(limit: Option<u16>) -> dgram::Config {
     let mut c = dgram::Config::new();
+    c.set_write_timeout(Duration::from_secs(2));
     c.set_max_response_size(limit);
     c
 }
@@ -2261,13 +2760,15 @@ fn dgram_config(limit: Option<u16>) -> dgram::Config {
 fn run_reconfigure(rc: &ReconfCase, col: &Collector) {
     let env = Env::new(Chooser::default(), true);
     let _ = take_task_panics();
-    let ac = ACase { transport: Transport::Udp(rc.l1), edns: EdnsReq::Size(rc.adv), size: SizeSpec::Abs(rc.size), resp_opt: 0, qlong: false, layout: 1, tail: 0 };
+    let ac = ACase { transport: Transport::Udp(rc.l1), edns: EdnsReq::Size(rc.adv), size: SizeSpec::Abs(rc.size), resp_opt: 0, qlong: false, layout: 1, tail: 0, deny: false, prefetch: false, aware: false };
     let req = ac.request();
     let spec = ASvcSpec {
         size: ac.size,
         resp_opt: 0,
         layout: 1,
         tail: 0,
+        aware: false,
+        svc_dropped: Arc::new(AtomicBool::new(false)),
         out: Arc::new(Mutex::new(None)),
         unconstructible: Arc::new(AtomicBool::new(false)),
     };
@@ -2348,7 +2849,7 @@ fn run_reconfigure(rc: &ReconfCase, col: &Collector) {
             continue;
         }
         let case_i = ACase { transport: Transport::Udp(limits[i]), ..ac.clone() };
-        let out = AOut { req: req.clone(), svc_bytes: svc_bytes[i].clone(), unconstructible: false, items: vec![Ok(Some(observed[0].data.clone()))], stream_slices: Vec::new(), not_ready: false };
+        let out = AOut { req: req.clone(), svc_bytes: svc_bytes[i].clone(), unconstructible: false, items: vec![Ok(Some(observed[0].data.clone()))], stream_slices: Vec::new(), not_ready: false, svc_dropped: false, size_hint: None };
         let (v, label, _) = judge_a(&case_i, &out);
         st.count(&format!("reconfigure.{phase}.{label}"));
         for (sig, what) in v {
@@ -2443,6 +2944,14 @@ fn main() {
             Some("depth") => {
                 let mut ch = Chooser::default();
                 run_stream(&mut ch, &col, Some(case["n"].as_u64().unwrap() as usize), None);
+            }
+            Some("transaction") => {
+                let mut ch = Chooser::default();
+                run_stream_txn(&mut ch, &col, None, None, Some(case["n"].as_u64().unwrap() as usize));
+            }
+            Some("holders") => {
+                let hc = HolderCase { limit: case["limit"].as_u64().unwrap() as usize, at_max: case["accept_at_max"].as_bool().unwrap(), wake: case["wake"].as_u64().unwrap() as usize };
+                run_holders(&hc, &col);
             }
             Some("write-cut") => {
                 let mut ch = Chooser::default();
@@ -2563,7 +3072,23 @@ fn main() {
         wd.leave();
     });
 
-    let b_execs = dg.executions + sx.executions + max_depth as u64 + fs_cases.len() as u64 + rc_cases.len() as u64 + wc_cases.len() as u64;
+    let h_cases = holder_cases();
+    for hc in &h_cases {
+        wd.enter(|| json!({"part": "holders"}));
+        run_holders(hc, &col);
+        wd.leave();
+    }
+
+    // ---- part (g): streams of n responses inside a transaction ---------------
+    let max_txn = if quick { 24 } else { 64 };
+    (1..=max_txn).into_par_iter().for_each(|n| {
+        wd.enter(|| json!({"part": "transaction", "n": n}));
+        let mut ch = Chooser::default();
+        run_stream_txn(&mut ch, &col, None, None, Some(n));
+        wd.leave();
+    });
+
+    let b_execs = h_cases.len() as u64 + max_txn as u64 + dg.executions + sx.executions + max_depth as u64 + fs_cases.len() as u64 + rc_cases.len() as u64 + wc_cases.len() as u64;
     let evaluations = a_stats.evals() + b_execs;
     let distinct = a_stats.distinct_count() + col.stats.distinct_count();
     let mut samples = a_stats.samples();
@@ -2590,6 +3115,8 @@ fn main() {
                 "dgram": {"executions": dg.executions, "per_deviation_count": dg.per_bound, "choice_points": dg.choice_points, "max_trace": dg.max_trace, "capped": dg_capped},
                 "stream": {"executions": sx.executions, "per_deviation_count": sx.per_bound, "choice_points": sx.choice_points, "max_trace": sx.max_trace, "capped": sx_capped},
                 "pipeline_depths": max_depth,
+                "at_limit_cases": h_cases.len(),
+                "transaction_stream_lengths": max_txn,
                 "write_cut_cases": wc_cases.len(),
                 "write_cut_stream_octets": wc_total,
                 "reconfigure_cases": rc_cases.len(),
@@ -2603,6 +3130,11 @@ fn main() {
             "part (b) bounds: 3 request slots, one connection plus one concurrent and one later well-behaved connection, <= 3 (quick) / <= 4 (thorough) non-default choices among request kind, segmentation, service behaviour, client abort and every socket/stream answer (incl. poll_accept error and the accepted connection's set-up future resolving to Err)",
             "part (f): three pipelined queries on one connection (all three responses queued before the first is written); for EVERY octet position of the response stream the client accepts exactly that many octets and then {stops reading for 31 s (> response_write_timeout 30 s) and reads again, stops for 5 s and reads again, stops for ever, fails the write}; what the client received must be whole well-formed frames of produced responses, optionally followed by the clean head of one more frame and nothing after it; a stall shorter than the write timeout excuses nothing",
             "part (a) TCP: for every response the stack yields, StreamTarget::as_stream_slice() must be the two-octet length of the message followed by exactly the message; the service dimension includes Ok(mk_error_response()) and a last builder step that is a rolled-back failed push; part (b) services include both as behaviours, pipelined with the other requests",
+            "cookies: server cookies in requests are made with the library's RFC 9018 routine (input crafting only); what is checked on cookie responses is what is checked on all: one well-formed response, ID and question echoed, within the UDP bound, TC rules; a TC bit on a response the middleware makes itself (deny list) is accepted as a deliberate retry-over-TCP signal",
+            "limit-aware service: computes its push limit as (512 without OPT | negotiated hint | 65535 on TCP) - Request::num_reserved_bytes(); the middleware must then not have to truncate again, and the TC the service set must survive",
+            "part (b) also chooses how the stack was assembled (MandatoryMiddlewareSvc::new / ::relaxed / cookies.enable(false)) and two more service behaviours (transaction bracket around 3 responses; Reconfigure{idle_timeout 60 s} feedback); the stream server gets the service behind an Arc (impl Service for Deref), the datagram server by value; both are built with ::new() in the exploration and with_config() in the sweeps",
+            "part (d) at-limit scenario: X arriving while the server is full may be turned away (that is what the limit is for); demanded is only that once all open connections closed a fresh connection is answered, and that after reconfigure() raised the limit by one X or a fresh connection is answered; limits 1..3, accept_connections_at_max on/off, connection config set through every setter (idle 300 s, write timeout 10 s, queue 32)",
+            "part (g): inside a transaction every response of the stream must arrive, also when there are more than max_queued_responses",
             "part (e): DgramServer with limit l1 serves a request, reconfigure(l2), 1 s, a request, reconfigure(l1), 1 s, a request; l1 != l2 in {512,1232,4096,none}, EDNS 1232/4096, service sizes around every limit; the limit demanded for a request is the one configured when it is received, which is all that dgram::Config::set_max_response_size promises for reconfigure",
             "part (d): n connections whose AsyncAccept::Future resolves to Err arrive one at a time (100 ms apart), then one fresh well-behaved connection; max_concurrent_connections in {1,2,3} with n = 0..=limit+2 (quick) / limit+5 (thorough), and the default 100 with n in {1,99,100,101} (quick) / 1..=130 (thorough); a connection whose set-up failed holds no slot of the connection limit",
             "a complete frame shorter than a DNS header, a client EOF/reset, or an environment write failure on a connection excuses missing responses on THAT connection (closing such a connection is permitted, RFC 7766 6.2.4); other connections and earlier written responses are still checked",
